@@ -109,7 +109,12 @@ func (r inlineRule) css() string {
 		kv := strings.SplitN(d, ":", 2)
 		parts = append(parts, kv[0]+": "+kv[1]+";")
 	}
-	return "." + r.class + " { " + strings.Join(parts, " ") + " }"
+	// a rule may target several classes: "ka,kb" prints as the grouped selector ".ka, .kb"
+	var sels []string
+	for _, c := range strings.Split(r.class, ",") {
+		sels = append(sels, "."+c)
+	}
+	return strings.Join(sels, ", ") + " { " + strings.Join(parts, " ") + " }"
 }
 
 // c19Judge compares a document with an inline block against the same document without it.
@@ -151,7 +156,9 @@ func c19Judge(drv *DriverPool, withSrc, withoutSrc string, rules []inlineRule, r
 	}
 	classes := map[string][]string{}
 	for _, r := range rules {
-		classes[r.class] = append(classes[r.class], r.decls...)
+		for _, c := range strings.Split(r.class, ",") {
+			classes[c] = append(classes[c], r.decls...)
+		}
 	}
 	inMso := false
 	for i := range tw {
@@ -232,57 +239,63 @@ func runC19(res *Result, tier string, seed int64, replay string) {
 		}
 		return
 	}
-	// (1) per component
-	for _, tag := range bodyTags {
-		if tag == "mj-raw" {
-			continue // css-class is accepted on every component (validator: always accepted); mj-raw emits no element of its own
-		}
-		for _, ml := range []bool{false, true} {
-			head := "<mj-head>" + block(rules, ml) + "</mj-head>"
-			with := legalContext(tag, `css-class="ka"`, head)
-			without := legalContext(tag, `css-class="ka"`, "")
-			if with == "" {
-				continue
+	// two rule sets: plain single-class rules, and a grouped rule (with a trailing ';') followed by one rule per class — the
+	// declarations of a class are the concatenation of all rules that name it, in rule order
+	ruleSets := [][]inlineRule{rules,
+		{{"ka,kb", []string{"color:#111111"}}, {"ka", []string{"margin:0"}}, {"kb", []string{"padding:0"}}, {"ka", []string{"font-weight:bold"}}}}
+	for _, rules := range ruleSets {
+		// (1) per component
+		for _, tag := range bodyTags {
+			if tag == "mj-raw" {
+				continue // css-class is accepted on every component (validator: always accepted); mj-raw emits no element of its own
 			}
-			cl, what := c19Judge(drv, with, without, rules, res, tag)
-			res.Case(fmt.Sprintf("%s/%v", tag, ml), true)
-			res.Count("component=" + tag)
-			if cl != "" {
-				sig := tag + "|" + cl
-				if cl == "inlined-rules-kept-in-head" {
-					sig = fmt.Sprintf("head|inlined-rules-kept-in-head|multiline=%v", ml)
+			for _, ml := range []bool{false, true} {
+				head := "<mj-head>" + block(rules, ml) + "</mj-head>"
+				with := legalContext(tag, `css-class="ka"`, head)
+				without := legalContext(tag, `css-class="ka"`, "")
+				if with == "" {
+					continue
 				}
-				res.Violate(Violation{Sig: sig, Kind: "cell", What: fmt.Sprintf("%s (multi-line block: %v): %s", tag, ml, what), Input: map[string]string{"source": with, "without": without, "signature": sig}})
+				cl, what := c19Judge(drv, with, without, rules, res, tag)
+				res.Case(fmt.Sprintf("%s/%v", tag, ml), true)
+				res.Count("component=" + tag)
+				if cl != "" {
+					sig := tag + "|" + cl
+					if cl == "inlined-rules-kept-in-head" {
+						sig = fmt.Sprintf("head|inlined-rules-kept-in-head|multiline=%v", ml)
+					}
+					res.Violate(Violation{Sig: sig, Kind: "cell", What: fmt.Sprintf("%s (multi-line block: %v): %s", tag, ml, what), Input: map[string]string{"source": with, "without": without, "signature": sig}})
+				}
 			}
 		}
-	}
-	// (2) author HTML and generated documents
-	author := []string{
-		`<p class="ka">S1E</p>`, `<span class='kb' style="margin:0">x</span>`, `<a class="ka kb" href="http://x/?a=1&amp;b=2" title="a > b">l</a>`,
-		`<img class="ka" src="i.png"/>`, `<br class="kb">`, `<td class="ka" style='padding:1px;' data-q="it's">c</td>`, `<div class="zz ka">n</div>`,
-		`<p class="kaa">not targeted</p>`, `<p CLASS="ka">upper</p>`, `<input class="kb" disabled>`,
-		`<span class='ka' style='font-family:"Helvetica Neue",Arial'>q</span>`, `<span style="font-family:'Open Sans'" class="kb">q2</span>`,
-		`<b class=ka>unquoted</b>`, `<i class = "kb" >spaced</i>`, `<u class="ka" style="">empty style</u>`, `<em class="ka" style="color:blue">no semicolon</em>`,
-	}
-	carriers := []struct{ name, open, close string }{
-		{"mj-text", "<mj-text>", "</mj-text>"}, {"mj-button", `<mj-button href="u">`, "</mj-button>"},
-		{"mj-table", "<mj-table><tr>", "</tr></mj-table>"}, {"mj-raw", "<mj-raw>", "</mj-raw>"},
-	}
-	for _, c := range carriers {
-		for _, a := range author {
-			if c.name == "mj-table" && !strings.HasPrefix(a, "<td") {
-				a = "<td>" + a + "</td>"
-			}
-			inner := c.open + a + c.close
-			body := "<mj-section><mj-column>" + inner + "</mj-column></mj-section>"
-			with := "<mjml><mj-head>" + block(rules, true) + "</mj-head><mj-body>" + body + "</mj-body></mjml>"
-			without := "<mjml><mj-body>" + body + "</mj-body></mjml>"
-			cl, what := c19Judge(drv, with, without, rules, res, c.name)
-			res.Case(with, strings.Contains(a, `"ka`) || strings.Contains(a, `kb`))
-			res.Count("author-html-in=" + c.name)
-			if cl != "" {
-				sig := "author-html/" + c.name + "|" + strings.SplitN(cl, "|", 2)[0]
-				res.Violate(Violation{Sig: sig, Kind: "cell", What: fmt.Sprintf("author HTML %s inside %s: %s", short(a, 60), c.name, what), Input: map[string]string{"source": with, "without": without, "signature": sig}})
+		// (2) author HTML and generated documents
+		author := []string{
+			`<p class="ka">S1E</p>`, `<span class='kb' style="margin:0">x</span>`, `<a class="ka kb" href="http://x/?a=1&amp;b=2" title="a > b">l</a>`,
+			`<img class="ka" src="i.png"/>`, `<br class="kb">`, `<td class="ka" style='padding:1px;' data-q="it's">c</td>`, `<div class="zz ka">n</div>`,
+			`<p class="kaa">not targeted</p>`, `<p CLASS="ka">upper</p>`, `<input class="kb" disabled>`,
+			`<span class='ka' style='font-family:"Helvetica Neue",Arial'>q</span>`, `<span style="font-family:'Open Sans'" class="kb">q2</span>`,
+			`<b class=ka>unquoted</b>`, `<i class = "kb" >spaced</i>`, `<u class="ka" style="">empty style</u>`, `<em class="ka" style="color:blue">no semicolon</em>`,
+		}
+		carriers := []struct{ name, open, close string }{
+			{"mj-text", "<mj-text>", "</mj-text>"}, {"mj-button", `<mj-button href="u">`, "</mj-button>"},
+			{"mj-table", "<mj-table><tr>", "</tr></mj-table>"}, {"mj-raw", "<mj-raw>", "</mj-raw>"},
+		}
+		for _, c := range carriers {
+			for _, a := range author {
+				if c.name == "mj-table" && !strings.HasPrefix(a, "<td") {
+					a = "<td>" + a + "</td>"
+				}
+				inner := c.open + a + c.close
+				body := "<mj-section><mj-column>" + inner + "</mj-column></mj-section>"
+				with := "<mjml><mj-head>" + block(rules, true) + "</mj-head><mj-body>" + body + "</mj-body></mjml>"
+				without := "<mjml><mj-body>" + body + "</mj-body></mjml>"
+				cl, what := c19Judge(drv, with, without, rules, res, c.name)
+				res.Case(with, strings.Contains(a, `"ka`) || strings.Contains(a, `kb`))
+				res.Count("author-html-in=" + c.name)
+				if cl != "" {
+					sig := "author-html/" + c.name + "|" + strings.SplitN(cl, "|", 2)[0]
+					res.Violate(Violation{Sig: sig, Kind: "cell", What: fmt.Sprintf("author HTML %s inside %s: %s", short(a, 60), c.name, what), Input: map[string]string{"source": with, "without": without, "signature": sig}})
+				}
 			}
 		}
 	}
@@ -295,6 +308,16 @@ func runC19(res *Result, tier string, seed int64, replay string) {
 		d := genRich(r, &RichOpts{Head: true, MaxAttrs: 3, Features: false})
 		// no inline block in the generated head; css-class values are ka / kb / kc already
 		var rs []inlineRule
+		pool := []string{"color:red", "margin:0", "font-size:12px", "border:1px solid #000", "text-align:center", "line-height:1.2"}
+		// a grouped rule first (several classes share one declaration block), then rules for single classes
+		if r.Bool(1, 2) {
+			g := r.Pick([]string{"ka,kb", "kb,kc", "ka,kb,kc", "kc,ka"})
+			var ds []string
+			for j, m := 0, 1+r.Intn(2); j < m; j++ {
+				ds = append(ds, pool[r.Intn(len(pool))])
+			}
+			rs = append(rs, inlineRule{g, ds})
+		}
 		for _, c := range []string{"ka", "kb", "kc"} {
 			if r.Bool(2, 3) {
 				var ds []string
